@@ -311,6 +311,21 @@ MULT = [0.0, 1e-30, 1e-12, 1e-6, 1e-3, 0.1, 0.25, 0.5, 0.9, 0.99, 0.999, 1 - 2.0
 XMAX = {"float64": 1e300, "float32": 1e37}        # "all non-negative input": up to just below overflow
 
 
+def x_cap(spec, dtn) -> float:
+    """largest input for which every intermediate of the documented formula and of its first derivative is finite in
+    the dtype (x/delta^2, (x/delta^2)^2 for Arctan, 1/delta^2 + x): the domain of "all non-negative input" here;
+    beyond it the float code overflows (not modelled, like rounding)"""
+    big = XMAX[dtn] / 16
+    k, p = spec["kind"], spec["p"]
+    if k in ("pseudohuber", "cauchy"):
+        return min(big, big * p[0] * p[0])
+    if k == "arctan":
+        return min(big, math.sqrt(big) * p[0] * p[0])
+    if k == "huber":
+        return min(big, big ** (2.0 / 3.0))
+    return big
+
+
 def sweep_mults(dtn, s0):
     """s0 * (1 +- 2^-k), k = 1 .. mantissa bits, plus s0 itself"""
     bits = 23 if dtn == "float32" else 52
@@ -357,7 +372,7 @@ def kernel_inputs(case):
             vals.append(math.exp(rng.uniform(-12, 12)))
         else:
             vals.append(XMAX[dtn] * rng.choice([1.0, 1e-3, 1e-10]))
-    vals = [min(v, XMAX[dtn]) for v in vals]
+    vals = [min(v, x_cap(spec, dtn)) for v in vals]
     if n and case.get("with_zero", True):
         vals[rng.randrange(n)] = 0.0
     if n > 1 and spec["kind"] == "huber":
@@ -467,14 +482,14 @@ def run_kernel(ctx: Ctx, cases):
     for case in cases:
         key = (case["spec"]["kind"], tuple(case["spec"]["p"]))
         kobj = pool.setdefault(key, build_kernel(case["spec"]))   # the same object serves many calls
-        res = check_kernel(ctx, case, kobj)
+        res = guard(ctx, case, lambda: check_kernel(ctx, case, kobj))
         spec = case["spec"]
         ctx.note_case(("kernel", spec["kind"], common.sig_mag(own_scale(spec)), case["dtype"], len(case["shape"]),
                        case["data_seed"] % 7), True)
         ctx.count(f"kernel.{spec['kind']}.{case['dtype']}")
         ctx.count(f"kernel.rank{len(case['shape'])}")
         if spec["kind"] == "huber":
-            huber_threshold_oracle(ctx, case)
+            guard(ctx, case, lambda: huber_threshold_oracle(ctx, case))
         if res is None:
             continue
         x, y = res
@@ -552,6 +567,42 @@ def run_negative(ctx: Ctx, cases):
 NORMS = [0.0, 0.0, 1e-160, 1e-30, 1e-8, 1e-3, 0.03, 0.3, 0.7, 1.0, 1.0, 1.5, 3.0, 10.0, 100.0, 1e4, 1e9, 1e60]
 
 
+REGIMES = ["zero", "tiny", "below", "threshold", "above", "ordinary", "large", "huge"]
+
+
+def regime_batch(case):
+    """one batch with one item of every regime of the kernel (zero / tiny / just below, exactly at, just above the
+    kernel's own scale / ordinary / large / largest overflow-free), in an order fixed by the data seed"""
+    rng = random.Random(case["data_seed"])
+    dtn, d, p, spec = case["dtype"], case["d"], case["p"], case["spec"]
+    s0 = math.sqrt(own_scale(spec)) if spec["kind"] != "poly" else 1.0
+    cap = 0.5 * math.sqrt(x_cap(spec, dtn) / d) if spec["kind"] != "poly" else 30.0
+    if dtn == "float32":
+        cap = min(cap, 1e17)
+    else:
+        cap = min(cap, 1e140)
+    eps = common.EPS[dtn]
+    norm = {"zero": 0.0, "tiny": 1e-15 if dtn == "float32" else 1e-150, "below": s0 * (1 - 8 * eps), "threshold": s0, "above": s0 * (1 + 8 * eps),
+            "ordinary": s0 * 0.37, "large": min(s0 * 1e3, cap), "huge": cap}
+    if spec["kind"] == "poly":
+        norm.update({"tiny": 1e-6, "large": 10.0, "huge": 30.0})
+    order = REGIMES[:]
+    rng.shuffle(order)
+    order = (order * ((case["nitems"] + 7) // 8))[:case["nitems"]]
+    rows = []
+    for rg in order:
+        if rg in ("below", "threshold", "above"):
+            row = [0.0] * d
+            row[rng.randrange(d)] = norm[rg] * rng.choice([1.0, -1.0])
+        else:
+            row = [norm[rg] * v for v in common.rand_dir(rng, d)]
+        rows.append(row)
+    R = torch.tensor(rows, dtype=DT[dtn]).reshape(list(case["batch"]) + [d])
+    J = torch.tensor([[rng.gauss(0, 1) * rng.choice([1.0, 1.0, 0.0, 1e-4, 50.0]) for _ in range(p)] for _ in range(len(rows) * d)],
+                     dtype=DT[dtn]).reshape(len(rows) * d, p)
+    return R, J
+
+
 def corrector_data(case):
     """deterministic (R, J) for a corrector case: R shape batch+(d,), J shape (N*d, p)"""
     rng = random.Random(case["data_seed"])
@@ -560,6 +611,8 @@ def corrector_data(case):
     spec = case["spec"]
     s0 = math.sqrt(own_scale(spec)) if spec["kind"] != "poly" else case.get("xref", 1.0) ** 0.5
     rows = []
+    if case.get("regimes"):
+        return regime_batch(case)
     sw = sweep_mults(dtn, 1.0) if case.get("sweep") else None
     if case.get("linsweep"):
         sw = [v / own_scale(spec) for v in lin_sweep(spec)]
@@ -571,6 +624,8 @@ def corrector_data(case):
         if nv != 0.0:
             # |R_i|^2 must stay finite in the dtype (d <= 6 components): "all residual tensors" up to there
             nv = min(max(nv, 1e-15), 1e17) if dtn == "float32" else min(nv, 1e140)
+            if spec["kind"] != "poly":
+                nv = min(nv, 0.5 * math.sqrt(x_cap(spec, dtn) / d))
             if spec["kind"] == "poly":          # x^3 of the user polynomial must stay finite
                 nv = min(nv, 1e5 if dtn == "float32" else 1e40)
         if "norm_cap" in case and nv > case["norm_cap"] * s0:
@@ -670,6 +725,22 @@ def d2_noise(spec, x: float) -> float:
     return 0.0
 
 
+DENORM = {"float64": 2.0 ** -1074, "float32": 2.0 ** -149}
+
+
+def g1_floor(spec, dtn) -> float:
+    """representability of rho' as autograd computes it: the chain rule of `c * f(x / c)` (c = delta^2, resp. b for
+    Tolerant) passes through the intermediate c * rho'; once that is subnormal its absolute error is the subnormal
+    spacing, i.e. rho' carries an absolute error DENORM / c (only visible for rho' * c < ~1e-38 in float32)"""
+    k, p = spec["kind"], spec["p"]
+    c = 1.0
+    if k in ("pseudohuber", "cauchy", "arctan"):
+        c = min(1.0, p[0] * p[0])
+    elif k == "tolerant":
+        c = min(1.0, abs(p[1]))
+    return 4.0 * DENORM[dtn] / c
+
+
 SQRT_TINY = {"float64": 2.0 ** -536, "float32": 2.0 ** -74}     # sqrt of the smallest subnormal (rho' underflow)
 
 
@@ -724,7 +795,7 @@ def corrector_oracles(ctx: Ctx, case, R, J, Rc, Jc):
     Gs = ampv[:, None] * (np.einsum("iap,ia->ip", np.abs(Jcn) + E + floorJ, np.abs(Rcn) + floorR)
                           + g1[:, None] * np.einsum("iap,ia->ip", np.abs(Jn), np.abs(Rn)))
     # + representability of rho' itself (below the smallest subnormal it is 0 in the dtype)
-    tol = TOLK * eps * Gs + 16 * TINY[dtn] + 4 * SQRT_TINY[dtn] ** 2 * np.einsum("iap,ia->ip", np.abs(Jn), np.abs(Rn))
+    tol = TOLK * eps * Gs + 16 * TINY[dtn] + g1_floor(spec, dtn) * np.einsum("iap,ia->ip", np.abs(Jn), np.abs(Rn))
     if N and (np.abs(G - Gw) > tol).any():
         i, l = (int(v) for v in np.unravel_index(int(np.argmax(np.abs(G - Gw) - tol)), G.shape))
         cfail(ctx, case, f"grad-law: {case['which']}({spec['kind']}{spec['p']}) J'^T R' != sum rho' J^T R: item {i} (|R_i|^2={float(xs[i])!r}) "
@@ -739,7 +810,7 @@ def corrector_oracles(ctx: Ctx, case, R, J, Rc, Jc):
     Ja = np.abs(Jcn) + E + floorJ
     Hs = ampv[:, None, None] * (np.einsum("iap,iaq->ipq", Ja, Ja) + g1[:, None, None] * np.einsum("iap,iaq->ipq", np.abs(Jn), np.abs(Jn))
                                 + np.abs(cur)[:, None, None] * np.einsum("ip,iq->ipq", JRa, JRa))
-    tolh = TOLK * eps * Hs + 16 * TINY[dtn] + 4 * SQRT_TINY[dtn] ** 2 * np.einsum("iap,iaq->ipq", np.abs(Jn), np.abs(Jn))
+    tolh = TOLK * eps * Hs + 16 * TINY[dtn] + g1_floor(spec, dtn) * np.einsum("iap,iaq->ipq", np.abs(Jn), np.abs(Jn))
     if N and (np.abs(H - Hw) > tolh).any():
         idx = tuple(int(v) for v in np.unravel_index(int(np.argmax(np.abs(H - Hw) - tolh)), H.shape))
         name = "hess-law" if case["which"] == "triggs" else "fast-hess-law"
@@ -827,8 +898,9 @@ def compare_corrector(ctx: Ctx, case, R, J, Rc, Jc, rep, stream=None):
         se = math.sqrt(max(float(mp_d1(spec, x)), 0.0))
         masked = bool(mm[i]) if mm else False
         # multiplicative structure: R' is relative per component; J' gets the rank-one term on the mask
-        tolR = TOLK * amp * eps * np.abs(Rm[i]) + 4 * TINY[dtn] + SQRT_TINY[dtn] * np.abs(Rn[i])
-        tolJ = TOLK * amp * eps * np.abs(se * Jn[i]) + 4 * TINY[dtn] + SQRT_TINY[dtn] * np.abs(Jn[i])
+        sfl = math.sqrt(se * se + g1_floor(spec, dtn)) - se          # sqrt(rho') when rho' is only known to +- g1_floor
+        tolR = TOLK * amp * eps * np.abs(Rm[i]) + 4 * TINY[dtn] + sfl * np.abs(Rn[i])
+        tolJ = TOLK * amp * eps * np.abs(se * Jn[i]) + 4 * TINY[dtn] + sfl * np.abs(Jn[i])
         if case["which"] == "triggs" and x > 0:
             al = d2_noise(spec, x)
             if masked or case.get("_mask", [False] * N)[i]:
@@ -864,7 +936,7 @@ def run_corrector(ctx: Ctx, cases):
             kobj = build_kernel(spec)
             pool[key] = (build_corrector(case["which"], kobj), build_corrector("fast", kobj))
         cobj, fobj = pool[key]                  # the same corrector object serves consecutive cases
-        res = check_corrector(ctx, case, cobj, fobj)
+        res = guard(ctx, case, lambda: check_corrector(ctx, case, cobj, fobj))
         msk = case.get("_mask", [])
         N = int(math.prod(case["batch"]))
         ctx.note_case((case["which"], spec["kind"], case.get("regime", ""), case["dtype"], tuple(case["batch"]), case["d"], case["p"],
@@ -876,7 +948,7 @@ def run_corrector(ctx: Ctx, cases):
         if res is None:
             continue
         R, J, Rc, Jc = res
-        ctx.count(f"{case['which']}.items.zero-row", int((R.reshape(N, -1).abs().sum(-1) == 0).sum()))
+        ctx.count(f"{case['which']}.items.zero-row", int((R.reshape(N, case["d"]).abs().sum(-1) == 0).sum()))
         if N == 0:
             continue
         lines.append(corrector_line(case, R, J))
@@ -892,7 +964,9 @@ def run_corrector(ctx: Ctx, cases):
 
 
 def gen_corrector_case(rng, which, kind, regime=None):
-    batch = small_shape(rng, 2, (1, 2, 3))
+    batch = small_shape(rng, 3, (1, 2, 3)) if rng.random() < 0.9 else [rng.choice([0, 1, 2]), 0][:rng.randint(1, 2)]
+    if math.prod(batch) > 12:
+        batch = batch[:2]
     case = {"stream": which, "which": which, "dtype": rng.choice(["float64", "float64", "float32"]),
             "batch": batch, "d": rng.randint(1, 6), "p": rng.randint(1, 4), "data_seed": rng.randrange(1 << 30),
             "nograd": rng.random() < 0.5, "force_zero_row": rng.random() < 0.35}
@@ -938,23 +1012,12 @@ def arg_tokens(arg):
     return f"many {len(arg[1])} " + " ".join("N" if v is None else str(v) for v in arg[1])
 
 
-def select_setup(case):
-    """builds kernels/correctors/optimiser exactly as recorded in the case"""
-    import pypose as pp
-    rng = random.Random(case["data_seed"])
-    dt = DT[case["dtype"]]
-    p = case["p"]
-    shapes = [tuple(s) for s in case["shapes"]]
-    Ms = [torch.tensor([[rng.gauss(0, 1) for _ in range(p)] for _ in range(n * d)], dtype=dt) for n, d in shapes]
-    theta = torch.tensor([rng.gauss(0, 1) for _ in range(p)], dtype=dt)
-    ys = []
-    for r in range(2):       # two steps with different targets on the same optimiser object
-        ys.append([torch.tensor([rng.gauss(0, 1) * rng.choice([0.01, 1.0, 1.0, 10.0]) for _ in range(n * d)], dtype=dt) for n, d in shapes])
-    kpool = [build_kernel(s) for s in case["kspecs"]]
-    # user correctors: id = 2*j (+1): FastTriggs / Triggs of kernel j
+def select_objects(case):
+    """fresh kernel / corrector objects for the recorded kernel= / corrector= arguments"""
+    kpool = [build_kernel(sp) for sp in case["kspecs"]]
     cpool = {}
 
-    def corr(cid):
+    def corr(cid):          # user correctors: id = 2*j (+1): FastTriggs / Triggs of kernel j
         if cid not in cpool:
             cpool[cid] = build_corrector("triggs" if cid % 2 else "fast", kpool[cid // 2])
         return cpool[cid]
@@ -969,6 +1032,11 @@ def select_setup(case):
 
     kernel = realise(case["karg"], lambda j: kpool[j], case["tuple"])
     corrector = realise(case["carg"], corr, case["tuple"])
+    return kpool, kernel, corrector
+
+
+def build_opt(case, Ms, shapes, theta, kernel, corrector):
+    import pypose as pp
     model = LinModel(Ms, shapes, theta)
     rec = Recorder()
     if case["opt"] == "GN":
@@ -976,7 +1044,27 @@ def select_setup(case):
     else:
         opt = pp.optim.LM(model, solver=rec, kernel=kernel, corrector=corrector,
                           strategy=pp.optim.strategy.Constant(damping=case["damping"]))
-    return model, opt, rec, ys, kpool, Ms, shapes
+    return model, opt, rec
+
+
+NSTEPS = 3
+
+
+def select_setup(case):
+    """builds kernels/correctors/optimiser exactly as recorded in the case"""
+    rng = random.Random(case["data_seed"])
+    dt = DT[case["dtype"]]
+    p = case["p"]
+    shapes = [tuple(sh) for sh in case["shapes"]]
+    Ms = [torch.tensor([[rng.gauss(0, 1) for _ in range(p)] for _ in range(n * d)], dtype=dt) for n, d in shapes]
+    theta = torch.tensor([rng.gauss(0, 1) for _ in range(p)], dtype=dt)
+    ys = []
+    for r in range(NSTEPS):       # several steps with different targets on the same optimiser object
+        ys.append([torch.tensor([rng.gauss(0, 1) * rng.choice([0.0, 0.01, 1.0, 1.0, 10.0]) for _ in range(n * d)], dtype=dt) for n, d in shapes])
+    dthetas = [torch.tensor([rng.gauss(0, 0.3) for _ in range(p)], dtype=dt) for _ in range(NSTEPS)]
+    kpool, kernel, corrector = select_objects(case)
+    model, opt, rec = build_opt(case, Ms, shapes, theta, kernel, corrector)
+    return model, opt, rec, ys, kpool, Ms, shapes, kernel, corrector, dthetas
 
 
 def parse_select(rep, nres):
@@ -999,21 +1087,120 @@ def sel_spec(tok, kspecs):
     raise ValueError(tok)
 
 
-def check_select(ctx: Ctx, case):
-    """one optimiser configuration, two steps; returns nothing (records into ctx)"""
+def as_list(arg):
+    return None if arg is None else (list(arg) if isinstance(arg, (list, tuple)) else [arg])
+
+
+def select_structure_oracle(ctx, case, opt, kernel, corrector):
+    """documented normalisation of kernel= / corrector= (docstrings of GN / LM), checked on the real objects"""
+    from pypose.optim.optimizer import Trivial
+    C = ppc()
+    kl, cl = as_list(kernel), as_list(corrector)
+    mk, oc = list(opt.model.kernel), list(opt.corrector)
+    want_k = [None] if kl is None else kl
+    if len(mk) != len(want_k) or any((isinstance(m, Trivial) if w is None else m is w) is False for m, w in zip(mk, want_k)):
+        ctx.fail(case, f"select-structure: RobustModel.kernel {[type(m).__name__ for m in mk]} is not the given kernel list "
+                       f"{[None if w is None else type(w).__name__ for w in want_k]} (None -> Trivial)")
+        return False
+    if cl is not None:
+        if len(oc) != len(cl) or any((isinstance(o, Trivial) if w is None else o is w) is False for o, w in zip(oc, cl)):
+            ctx.fail(case, f"select-structure: optimizer.corrector {[type(o).__name__ for o in oc]} is not the given corrector list")
+            return False
+    elif kl is None:
+        if len(oc) != 1 or not isinstance(oc[0], Trivial):
+            ctx.fail(case, f"select-structure: without kernel and corrector the corrector list must be [Trivial], got {[type(o).__name__ for o in oc]}")
+            return False
+    else:
+        probe = torch.tensor([0.0, 0.3, 1.7, 9.0], dtype=torch.float64)
+        if len(oc) != len(kl) or not all(isinstance(o, C.FastTriggs) for o in oc):
+            ctx.fail(case, f"select-structure: auto-correction must create one FastTriggs per kernel, got {[type(o).__name__ for o in oc]} for {len(kl)} kernels")
+            return False
+        for i, (o, w) in enumerate(zip(oc, kl)):
+            want = probe.sum() if w is None else w(probe).sum()
+            if abs(float(o.func(probe)) - float(want)) > 1e-12 * (1 + abs(float(want))):
+                ctx.fail(case, f"select-structure: auto corrector {i} is not FastTriggs of kernel {i} ({'Trivial' if w is None else type(w).__name__})")
+                return False
+    return True
+
+
+def select_line(case):
+    return f"c09.select {len(case['shapes'])} {arg_tokens(case['karg'])} {arg_tokens(case['carg'])}"
+
+
+def select_step_lines(case, lk, sc, Rs, Ms, shapes):
+    nres, dtn = len(shapes), case["dtype"]
+    lines, kinds = [], []
+    for j in range(nres):
+        tok = sc[j]
+        which = "triggs" if (tok.startswith("U") and int(tok[1:]) % 2) else "fast"
+        sub = {"which": which, "spec": sel_spec(tok, case["kspecs"]), "dtype": dtn, "batch": [shapes[j][0]], "d": shapes[j][1],
+               "p": case["p"]}
+        lines.append(corrector_line(sub, Rs[j], Ms[j]))
+        kinds.append(sub)
+    for j in range(nres):
+        if lk[j] != "-":
+            lines.append("c09.lossone " + spec_wire(sel_spec(lk[j], case["kspecs"])) + f" {shapes[j][0]} {shapes[j][1]} "
+                         + common.wire_list(Rs[j].flatten().double().tolist()))
+    return lines, kinds
+
+
+def select_plan(case):
+    """the caller-side state before every step (pure mirror of what check_select does to the real objects; the recording
+    solver returns a zero step, so the parameters only move by the caller's own in-place updates)"""
+    rng = random.Random(case["data_seed"])
+    dt = DT[case["dtype"]]
+    p = case["p"]
+    shapes = [tuple(sh) for sh in case["shapes"]]
+    Ms = [torch.tensor([[rng.gauss(0, 1) for _ in range(p)] for _ in range(n * d)], dtype=dt) for n, d in shapes]
+    theta = torch.tensor([rng.gauss(0, 1) for _ in range(p)], dtype=dt)
+    ys = []
+    for r in range(NSTEPS):
+        ys.append([torch.tensor([rng.gauss(0, 1) * rng.choice([0.0, 0.01, 1.0, 1.0, 10.0]) for _ in range(n * d)], dtype=dt) for n, d in shapes])
+    dthetas = [torch.tensor([rng.gauss(0, 0.3) for _ in range(p)], dtype=dt) for _ in range(NSTEPS)]
+    out = []
+    for step in range(NSTEPS):
+        if step == 1:
+            theta = theta + dthetas[1]
+        elif step >= 2:
+            theta = theta * 0.5 - dthetas[step]
+            Ms = [M * 1.25 for M in Ms]
+        out.append((theta.clone(), [t.clone() for t in ys[step]], [M.clone() for M in Ms], shapes))
+    return out
+
+
+def check_select(ctx: Ctx, case, pre=None):
+    """one optimiser configuration, NSTEPS steps on the same object; between steps the caller updates its targets and the
+    model parameters in place; returns nothing (records into ctx)"""
     nres, dtn = len(case["shapes"]), case["dtype"]
     eps = common.EPS[dtn]
-    rep = ctx.driver.run([f"c09.select {nres} {arg_tokens(case['karg'])} {arg_tokens(case['carg'])}"])[0]
+    rep = pre[0] if pre is not None else ctx.driver.run([select_line(case)])[0]
     lk, sc = parse_select(rep, nres)
     try:
-        model, opt, rec, ys, kpool, Ms, shapes = select_setup(case)
+        model, opt, rec, ys, kpool, Ms, shapes, kernel, corrector, dthetas = select_setup(case)
     except Exception as e:
         ctx.fail(case, f"select-init: constructing {case['opt']} raises {type(e).__name__}: {str(e)[:120]}")
         return
+    if not select_structure_oracle(ctx, case, opt, kernel, corrector):
+        return
     consistent = all((c == "A" + k) or (c == k == "T") or (c.startswith("U") and k == f"K{int(c[1:]) // 2}")
                      for k, c in zip(lk, sc)) and "-" not in lk + sc
-    for step in range(2):
-        y = ys[step]
+    y = None
+    for step in range(NSTEPS):
+        # --- what the caller does between steps (stale-read / reuse history)
+        if step == 0:
+            y = [t.clone() for t in ys[0]]
+        elif step == 1:
+            for t, new in zip(y, ys[1]):          # same list, same tensors, updated in place
+                t.copy_(new)
+            with torch.no_grad():
+                model.theta.add_(dthetas[1])
+        else:
+            y = [t.clone() for t in ys[step]]       # new tensors
+            with torch.no_grad():
+                model.theta.mul_(0.5).sub_(dthetas[step])
+                for M in Ms:                          # the model's own constants change in place too
+                    M.mul_(1.25)
+        y_before = [t.clone() for t in y]
         ncalls = len(rec.calls)
         theta0 = model.theta.detach().clone()
         try:
@@ -1026,34 +1213,77 @@ def check_select(ctx: Ctx, case):
                 ctx.disagree("select", case, f"model predicts an index error in step (correctors {sc}) but the implementation ran")
             return
         if raised is not None:
-            ctx.fail(case, f"select-raises: {case['opt']}.step raises {raised} (kernel={case['karg']}, corrector={case['carg']})")
+            ctx.fail(case, f"select-raises: {case['opt']}.step raises {raised} (kernel={case['karg']}, corrector={case['carg']}, step {step})")
+            return
+        if any(not torch.equal(t, t0) for t, t0 in zip(y, y_before)):
+            ctx.fail({**clean(case), "step": step}, f"select-mutates: {case['opt']}.step changed the caller's input tensors")
             return
         if len(rec.calls) < ncalls + 1 or (case["opt"] == "GN" and len(rec.calls) != ncalls + 1):
             ctx.disagree("select", case, f"solver called {len(rec.calls) - ncalls} times in one step")
             return
         A, b = rec.calls[ncalls]          # LM may retry with more damping: the right-hand side is the same
+        if not (bool(torch.isfinite(A).all()) and bool(torch.isfinite(b).all()) and isinstance(loss, torch.Tensor) and bool(torch.isfinite(loss).all())):
+            ctx.fail({**clean(case), "step": step}, f"select-finite: {case['opt']} hands a non-finite system / loss to the solver "
+                     f"(kernel={case['karg']}, corrector={case['carg']}, loss={loss})")
+            return
         # residuals and Jacobians of the linear model (exact by construction)
         Rs = [(M @ theta0 + yy).view(sh) for M, yy, sh in zip(Ms, y, shapes)]
-        ampc = 4.0
-        for j in range(nres):
-            for tok in (sc[j], lk[j]):
-                if tok != "-":
-                    sp = sel_spec(tok, case["kspecs"])
-                    ampc = max([ampc] + [item_amp(sp, float(x)) for x in Rs[j].double().square().sum(-1).flatten().tolist()])
+        # --- oracle (real objects): residual j is corrected by corrector[0] if len == 1 else corrector[j]; the loss applies
+        #     kernel[j] (kernel[0] if one kernel); a fresh optimiser at the same state hands over the same system
+        try:
+            sel_ok = True
+            oc = list(opt.corrector)
+            outs = []
+            for j in range(nres):
+                cj = oc[0] if len(oc) == 1 else oc[j]
+                rj, jj = cj(R=Rs[j].clone(), J=Ms[j].clone())
+                outs.append((rj.detach().reshape(-1), jj.detach()))
+            Rcat, Jcat = torch.cat([o[0] for o in outs]), torch.cat([o[1] for o in outs])
+            if case["opt"] == "GN":
+                sel_ok = close_to(-b[:, 0], Rcat, eps) and close_to(A, Jcat, eps, 64 * eps * Jcat.double().abs().amax() if Jcat.numel() else None)
+            else:
+                wantb = ld(Jcat).T @ ld(Rcat)
+                scb = np.abs(ld(Jcat)).T @ np.abs(ld(Rcat))
+                sel_ok = bool((np.abs(-ld(b)[:, 0] - wantb) <= 16 * eps * scb + 16 * TINY[dtn]).all())
+            if not sel_ok:
+                ctx.fail({**clean(case), "step": step}, f"select-index: {case['opt']} step {step}: the system handed to the solver is not "
+                         f"[corrector[0] if one corrector else corrector[j]](R_j, J_j) stacked over the residuals (correctors "
+                         f"{[type(o).__name__ for o in oc]}, {nres} residuals)")
+                return
+            kl = as_list(kernel)
+            if "-" not in lk:
+                tot = 0.0
+                for j in range(nres):
+                    kj = None if kl is None else (kl[j] if len(kl) > 1 else kl[0])
+                    xj = Rs[j].square().sum(-1)
+                    tot = tot + (xj.sum() if kj is None else kj(xj).sum())
+                if not close_to(loss.detach().reshape(()), tot.detach().reshape(()), eps, 64 * eps * float(sum(r.square().sum() for r in Rs))):
+                    if case["opt"] == "GN" or step == 0:
+                        ctx.fail({**clean(case), "step": step}, f"loss-selection: {case['opt']} step {step} reports loss {float(loss)!r} but "
+                                 f"sum_j kernel_j(|R_j|^2) with kernel_j = kernel[j] (kernel[0] if one) is {float(tot)!r}")
+                        return
+            if step > 0:
+                kp2, k2, c2 = select_objects(case)
+                m2, o2, r2 = build_opt(case, [M.clone() for M in Ms], shapes, theta0.clone(), k2, c2)
+                l2 = o2.step([t.clone() for t in y])
+                A2, b2 = r2.calls[0]
+                if not (close_to(A, A2, eps, 16 * eps * A2.double().abs().amax()) and close_to(b, b2, eps, 16 * eps * b2.double().abs().amax())):
+                    ctx.fail({**clean(case), "step": step}, f"select-history: step {step} on a reused {case['opt']} (targets / parameters updated in place "
+                             f"between steps) hands the solver a different system than a fresh optimiser in the same state: max |dA| "
+                             f"{float((A - A2).abs().max()):.3e}, max |db| {float((b - b2).abs().max()):.3e}")
+                    return
+                if case["opt"] == "GN" and not close_to(loss.detach().reshape(()), l2.detach().reshape(()), eps, 64 * eps * float(sum(r.square().sum() for r in Rs))):
+                    ctx.fail({**clean(case), "step": step}, f"select-history: reused GN returns loss {float(loss)!r}, a fresh one {float(l2)!r}")
+                    return
+        except Exception as e:
+            ctx.fail({**clean(case), "step": step}, f"select-oracle-raises: {type(e).__name__}: {str(e)[:160]}")
+            return
         # --- model prediction: selected corrector per residual, selected kernel per residual in the loss
-        lines, kinds = [], []
-        for j in range(nres):
-            tok = sc[j]
-            which = "triggs" if (tok.startswith("U") and int(tok[1:]) % 2) else "fast"
-            sub = {"which": which, "spec": sel_spec(tok, case["kspecs"]), "dtype": dtn, "batch": [shapes[j][0]], "d": shapes[j][1],
-                   "p": case["p"]}
-            lines.append(corrector_line(sub, Rs[j], Ms[j]))
-            kinds.append(sub)
-        for j in range(nres):
-            if lk[j] != "-":
-                lines.append("c09.lossone " + spec_wire(sel_spec(lk[j], case["kspecs"])) + f" {shapes[j][0]} {shapes[j][1]} "
-                             + common.wire_list(Rs[j].flatten().double().tolist()))
-        reps = ctx.driver.run(lines)
+        lines, kinds = select_step_lines(case, lk, sc, Rs, Ms, shapes)
+        if pre is not None and step in pre[1] and pre[1][step][0] == lines:
+            reps = pre[1][step][1]
+        else:
+            reps = ctx.driver.run(lines)
         broken = False
         # corrected system
         if case["opt"] == "GN":
@@ -1077,9 +1307,12 @@ def check_select(ctx: Ctx, case):
                 Rm = np.array(nums[:n * d], dtype=np.longdouble).reshape(n * d)
                 Jm = np.array(nums[n * d:n * d + n * d * case["p"]], dtype=np.longdouble).reshape(n * d, case["p"])
                 tot += Jm.T @ Rm
-                sca += np.abs(Jm).T @ np.abs(Rm)
+                # per item conditioning (no global magnitude factor): each row weighted by its own amplification
+                ampj = np.repeat(np.array([item_amp(kinds[j]["spec"], float(x)) for x in Rs[j].double().square().sum(-1).flatten().tolist()],
+                                          dtype=np.longdouble), d)
+                sca += np.abs(Jm).T @ (ampj * np.abs(Rm))
             got = -ld(b)[:, 0]
-            tol = TOLK * ampc * eps * sca + 16 * TINY[dtn]
+            tol = TOLK * eps * sca + 16 * TINY[dtn]
             if (np.abs(got - tot) > tol).any():
                 mismatch(ctx, "select", {**clean(case), "step": step}, f"LM right-hand side {got.astype(float).tolist()} != model J'^T R' "
                                                                        f"{tot.astype(float).tolist()} (selection {sc})")
@@ -1091,24 +1324,35 @@ def check_select(ctx: Ctx, case):
             if lk[j] != "-":
                 want += mp.mpf(reply_floats(reps[ri])[0])
                 sp = sel_spec(lk[j], case["kspecs"])
-                wsc += sum(val_scale(sp, float(x)) + float(x) for x in Rs[j].double().square().sum(-1).flatten().tolist())
+                # value scale + the effect of rounding |R_i|^2 itself: rho'(x) * x
+                wsc += sum(val_scale(sp, float(x)) + float(mp_d1(sp, float(x))) * float(x) * shapes[j][1]
+                           for x in Rs[j].double().square().sum(-1).flatten().tolist())
                 ri += 1
         if abs(mp.mpf(float(loss)) - want) > TOLK * eps * wsc * 2 + 16 * TINY[dtn]:
             ctx.disagree("select", {**clean(case), "step": step}, f"loss {float(loss)!r} != model {float(want)!r} (loss kernels {lk})")
             broken = True
         # --- oracle: the direction handed to the solver is the gradient of the loss the optimiser reports
         if consistent:
-            with torch.enable_grad():
-                L = opt.model.loss(y, None)
-                g, = torch.autograd.grad(L, model.theta)
+            try:
+                with torch.enable_grad():
+                    L = opt.model.loss(y, None)
+                    g, = torch.autograd.grad(L, model.theta)
+            except Exception as e:
+                ctx.fail({**clean(case), "step": step}, f"select-oracle-raises: loss / autograd raises {type(e).__name__}: {str(e)[:160]}")
+                return
+            ampr = np.concatenate([np.repeat(np.array([item_amp(kinds[j]["spec"], float(x)) for x in Rs[j].double().square().sum(-1).flatten().tolist()]),
+                                             shapes[j][1]) for j in range(nres)]).astype(np.longdouble)
             if case["opt"] == "GN":
                 rhs = ld(A).T @ (-ld(b)[:, 0])
-                sc_ = np.abs(ld(A)).T @ np.abs(ld(b)[:, 0])
+                sc_ = np.abs(ld(A)).T @ (ampr * np.abs(ld(b)[:, 0]))
             else:
                 rhs = -ld(b)[:, 0]
                 sc_ = sca
             gl = ld(g)
-            tol = TOLK * ampc * eps * (2 * sc_ + np.abs(gl)) + 16 * TINY[dtn]
+            if not np.isfinite(gl.astype(np.float64)).all():
+                ctx.fail({**clean(case), "step": step}, f"select-finite: gradient of the reported loss is not finite: {gl.astype(float).tolist()}")
+                return
+            tol = TOLK * 4 * eps * sc_ + 16 * TINY[dtn]
             if (np.abs(2 * rhs - gl) > tol).any():
                 cfail(ctx, {**clean(case), "step": step}, f"descent-direction: {case['opt']} with kernel={case['karg']} corrector={case['carg']}: "
                          f"2*J'^T R' = {(2 * rhs).astype(float).tolist()} but the gradient of the reported loss is {gl.astype(float).tolist()}")
@@ -1159,15 +1403,316 @@ def gen_select_case(rng):
 
 
 def run_select(ctx: Ctx, cases):
-    for case in cases:
+    # the model's replies for all cases / steps in two driver batches (the inputs of every step are known in advance)
+    reps1 = ctx.driver.run([select_line(c) for c in cases])
+    allines, index = [], []
+    for ci, (case, rep) in enumerate(zip(cases, reps1)):
+        lk, sc = parse_select(rep, len(case["shapes"]))
+        if "-" in sc:
+            continue
+        for step, (theta0, y, Ms_, shapes) in enumerate(select_plan(case)):
+            Rs = [(M @ theta0 + yy).view(sh) for M, yy, sh in zip(Ms_, y, shapes)]
+            lines, _ = select_step_lines(case, lk, sc, Rs, Ms_, shapes)
+            index.append((ci, step, len(allines), len(lines), lines))
+            allines += lines
+    reps2 = ctx.driver.run(allines)
+    pre = {ci: (reps1[ci], {}) for ci in range(len(cases))}
+    for ci, step, off, ln, lines in index:
+        pre[ci][1][step] = (lines, reps2[off:off + ln])
+    for ci, case in enumerate(cases):
         # a kernel list of length 1 < len < nres silently drops residuals from the loss and fails in step: still compared
-        check_select(ctx, case)
+        guard(ctx, case, lambda: check_select(ctx, case, pre[ci]))
         k = case["karg"]
         c = case["carg"]
         ctx.note_case(("select", case["opt"], case["dtype"], len(case["shapes"]), None if k is None else (k[0], len(k[1]) if k[0] == "many" else 1),
                        None if c is None else (c[0], len(c[1]) if c[0] == "many" else 1), case["tuple"], case["data_seed"] % 3), True)
         ctx.count(f"select.{case['opt']}.kernel-{'none' if k is None else k[0]}.corrector-{'none' if c is None else c[0]}")
         ctx.sample(case, cap=10)
+
+
+# ----------------------------------------------------------------------------- history stream (hardening pass)
+# One kernel / corrector OBJECT lives through a history of calls in which every per-call argument changes (dtype, batch
+# rank and extents incl. 0, d, p, grad mode, memory layout) and the caller's tensors are updated in place between calls.
+# Oracles (model-free): every call equals the same call on a FRESH object with contiguous copies (no state, no stale
+# read, no layout dependence), each item equals the call on that item alone (no batch-level decision), the caller's
+# storage — also outside a view — is bit-for-bit untouched, the object's public attributes do not change; plus the
+# per-item gradient/Hessian laws and the Lean-model correspondence on every call.
+
+LAYOUTS = ["contig", "transposed", "strided", "buffer", "expanded", "alias", "inplace"]
+SENTINEL = 777.25
+
+
+def lay_out(T: torch.Tensor, layout: str, rng: random.Random):
+    """-> (V, base): V has the values of T in the requested memory layout, base is the storage owner to watch"""
+    if layout == "transposed" and T.dim() >= 2:
+        base = T.transpose(0, -1).contiguous()
+        return base.transpose(0, -1), base
+    if layout in ("strided", "transposed") and T.dim() >= 1:
+        base = torch.full(tuple(T.shape[:-1]) + (2 * T.shape[-1] + 1,), SENTINEL, dtype=T.dtype)
+        base[..., 1:2 * T.shape[-1] + 1:2] = T
+        return base[..., 1:2 * T.shape[-1] + 1:2], base
+    if layout == "buffer":
+        off = rng.randint(1, 5)
+        base = torch.full((T.numel() + off + rng.randint(1, 5),), SENTINEL, dtype=T.dtype)
+        base[off:off + T.numel()] = T.reshape(-1)
+        return base[off:off + T.numel()].view(T.shape), base
+    c = T.clone()
+    return c, c
+
+
+def history_call_data(which, spec, call):
+    """contiguous reference tensors of one call (deterministic)"""
+    sub = {"spec": spec, "dtype": call["dtype"], "data_seed": call["data_seed"]}
+    if which == "kernel":
+        x = kernel_inputs({**sub, "shape": call["shape"], "with_zero": True})
+        if call["layout"] == "expanded" and x.dim() >= 1 and x.shape[0] > 0:
+            x = x[:1].expand(x.shape).clone()
+        return (x,)
+    R, J = corrector_data({**sub, "batch": call["batch"], "d": call["d"], "p": call["p"], "force_zero_row": call.get("zero", False)})
+    N = int(math.prod(call["batch"]))
+    if call["layout"] == "expanded" and N > 0:
+        R = R.reshape(N, call["d"])[:1].expand(N, call["d"]).reshape(R.shape).clone()
+        J = J[:1].expand(J.shape).clone()
+    if call["layout"] == "alias":          # d = p = 1: the same tensor is residual and Jacobian
+        J = R.reshape(N, 1).clone()
+        R = J.reshape(list(call["batch"]) + [1])
+    return R, J
+
+
+def close_to(a, b, eps, extra=None):
+    """|a-b| <= 16 eps |b| (+ extra) element-wise, NaN/inf must match exactly"""
+    if tuple(a.shape) != tuple(b.shape) or a.dtype != b.dtype:
+        return False
+    a, b = a.detach().double(), b.detach().double()
+    fin = torch.isfinite(b)
+    if not torch.equal(torch.isfinite(a), fin):
+        return False
+    tol = 16 * eps * b.abs() + (0 if extra is None else extra)
+    return bool(((a - b).abs()[fin] <= (tol[fin] if isinstance(tol, torch.Tensor) else tol)).all())
+
+
+def pub_state(obj):
+    """public attribute snapshot of a kernel / corrector (values by repr; sub-objects by identity)"""
+    out = {}
+    for k, v in vars(obj).items():
+        if k.startswith("_"):
+            continue
+        out[k] = repr(v) if isinstance(v, (int, float, bool, str, tuple, type(None))) else ("obj", id(v))
+    out["#keys"] = tuple(sorted(k for k in vars(obj) if not k.startswith("_")))
+    return out
+
+
+def apply_obj(which, obj, tensors, nograd):
+    def go():
+        if which == "kernel":
+            return (obj(tensors[0]),)
+        return tuple(obj(R=tensors[0], J=tensors[1]))
+    if nograd:
+        with torch.no_grad():
+            return go()
+    return go()
+
+
+REGION_NCJ = "triggs-noncontiguous-J"
+
+
+def km_ncj(kf, case):
+    """known-findings matcher (call site + input region) for Triggs with a non-contiguous Jacobian"""
+    return (kf.get("site") == "pypose/optim/corrector.py: Triggs.forward" and kf.get("predicate") == "J non-contiguous"
+            and case.get("region") == REGION_NCJ)
+
+
+def hfail(ctx, case, what):
+    if case.get("region") == REGION_NCJ:
+        ctx.fail(case, "triggs-noncontiguous-J: " + what, known_matcher=km_ncj)
+    else:
+        ctx.fail(case, what)
+
+
+def check_history(ctx: Ctx, case, lines=None, metas=None):
+    which, spec = case["which"], case["spec"]
+    kobj = build_kernel(spec)
+    obj = kobj if which == "kernel" else build_corrector(which, kobj)
+    st0, kst0 = pub_state(obj), pub_state(kobj)
+    rng = random.Random(case["data_seed"])
+    held_alias = False
+    held = None            # caller-held tensors of the previous call (for the in-place / stale-read calls)
+    for ci, call in enumerate(case["calls"]):
+        cc = {**clean(case), "call": ci}
+        dtn = call["dtype"]
+        eps = common.EPS[dtn]
+        ref_in = history_call_data(which, spec, call)
+        layout = call["layout"]
+        try:
+            if layout == "inplace" and held is not None and not held_alias and all(h.shape == r.shape and h.dtype == r.dtype for h, r in zip(held, ref_in)):
+                # the caller updates the tensors it still holds, in place, to the new values (three different in-place routes)
+                for h, r in zip(held, ref_in):
+                    if h.numel():
+                        h.mul_(0.5)
+                        h.copy_(r)
+                        h[(0,) * h.dim()] = r[(0,) * r.dim()]
+                views, bases = held, [h for h in held]
+            elif layout == "alias" and which != "kernel":
+                V, base = lay_out(ref_in[1], "contig", rng)
+                views, bases = (V.reshape(ref_in[0].shape), V), [base]
+            else:
+                pairs = [lay_out(t, layout, rng) for t in ref_in]
+                views, bases = tuple(p[0] for p in pairs), [p[1] for p in pairs]
+            before = [b.clone() for b in bases]
+            if which == "triggs" and not views[1].is_contiguous():
+                cc["region"] = REGION_NCJ          # input-region label (from the inputs, not from the outcome)
+            out = apply_obj(which, obj, views, call["nograd"])
+            fresh_k = build_kernel(spec)
+            fresh = fresh_k if which == "kernel" else build_corrector(which, fresh_k)
+            ref = apply_obj(which, fresh, tuple(t.clone() for t in ref_in), False)
+        except Exception as e:
+            hfail(ctx, cc, f"history-raises: {which}({spec['kind']}) call {ci} (layout {layout}, dtype {dtn}, shapes "
+                         f"{[tuple(t.shape) for t in ref_in]}) raises {type(e).__name__}: {str(e)[:120]}")
+            held = None
+            continue            # the object lives on: later calls of the history are still checked
+        held = views
+        held_alias = layout == "alias" and which != "kernel"
+        names = ["y"] if which == "kernel" else ["R'", "J'"]
+        # purity, bit for bit, including the storage outside a view
+        for b, b0 in zip(bases, before):
+            if not torch.equal(torch.nan_to_num(b, nan=1.5), torch.nan_to_num(b0, nan=1.5)):
+                ctx.fail(cc, f"history-mutates: {which}({spec['kind']}) call {ci} (layout {layout}) changed the caller's storage")
+                return
+        # same as a fresh object on contiguous copies (a strided reduction may round |R_i|^2 differently: conditioning amp)
+        ampc = 1.0
+        if which != "kernel" and ref_in[0].numel():
+            ampc = max(item_amp(spec, float(x)) for x in ref_in[0].double().square().sum(-1).flatten().tolist())
+        extra = None
+        for nm, o, r, vin in zip(names, out, ref, views):
+            if not isinstance(o, torch.Tensor):
+                ctx.fail(cc, f"history-type: {which} returned {type(o).__name__} for {nm}")
+                return
+            if nm == "J'" and which == "triggs" and r.numel():
+                extra = 16 * eps * r.detach().double().abs().amax() * 4          # rank-one part: relative to the item scale
+            if not close_to(o, r, eps * ampc, extra if nm == "J'" else None):
+                dd = (o.detach().double() - r.detach().double()).abs().max().item() if tuple(o.shape) == tuple(r.shape) and o.numel() else float("nan")
+                ctx.fail(cc, f"history-fresh: {which}({spec['kind']}{spec['p']}) call {ci} on a reused object / layout {layout} / dtype {dtn}: {nm} "
+                             f"(shape {tuple(o.shape)} {o.dtype}) differs from a fresh object on contiguous copies (shape {tuple(r.shape)} {r.dtype}, max |diff| {dd:.3e})")
+                return
+            if o.numel() and vin.numel() and o.untyped_storage().data_ptr() == vin.untyped_storage().data_ptr():
+                ctx.fail(cc, f"history-alias: {which} call {ci}: output {nm} shares storage with the caller's input")
+                return
+        # public attributes
+        if pub_state(obj) != st0 or pub_state(kobj) != kst0:
+            ctx.fail(cc, f"history-state: public attributes of the {which}/{spec['kind']} object changed during call {ci}: "
+                         f"{ {k: v for k, v in pub_state(obj).items() if st0.get(k) != v} } { {k: v for k, v in pub_state(kobj).items() if kst0.get(k) != v} }")
+            return
+        # item alone == item in the batch
+        try:
+            if which == "kernel":
+                flat_in, flat_out = ref_in[0].reshape(-1), out[0].detach().reshape(-1)
+                for i in sorted({0, flat_in.numel() // 2, flat_in.numel() - 1}) if flat_in.numel() else []:
+                    alone = fresh(flat_in[i:i + 1].clone())
+                    if not close_to(alone.reshape(()), flat_out[i], eps):
+                        ctx.fail(cc, f"history-itemwise: {spec['kind']}{spec['p']} element {i} in the batch {float(flat_out[i])!r} != alone {float(alone)!r} (x={float(flat_in[i])!r})")
+                        return
+            else:
+                N, d, p = int(math.prod(call["batch"])), ref_in[0].shape[-1], ref_in[1].shape[-1]
+                Rn, Jn = ref_in[0].reshape(N, d), ref_in[1].reshape(N, d, p)
+                Ro, Jo = out[0].detach().reshape(N, d), out[1].detach().reshape(N, d, p)
+                for i in sorted({0, N // 2, N - 1}) if N else []:
+                    ra, ja = fresh(R=Rn[i:i + 1].clone(), J=Jn[i].clone())
+                    ex = 16 * eps * Jo[i].double().abs().amax() * 4 if which == "triggs" else None
+                    if not (close_to(ra.reshape(d), Ro[i], eps * ampc) and close_to(ja.reshape(d, p), Jo[i], eps * ampc, ex)):
+                        ctx.fail(cc, f"history-itemwise: {which}({spec['kind']}{spec['p']}) item {i} of a batch of {N} differs from the same item alone "
+                                     f"(R_i={Rn[i].tolist()}, batch norms^2 {Rn.double().square().sum(-1).tolist()[:6]})")
+                        return
+        except Exception as e:
+            ctx.fail(cc, f"history-raises: {which}({spec['kind']}) on a single item raises {type(e).__name__}: {str(e)[:120]}")
+            return
+        # the laws and the model on this call
+        if which != "kernel":
+            N = int(math.prod(call["batch"]))
+            sub = {**cc, "dtype": dtn, "batch": call["batch"], "d": ref_in[0].shape[-1], "p": ref_in[1].shape[-1]}
+            if N and bool(torch.isfinite(out[0]).all()) and bool(torch.isfinite(out[1]).all()) and not (spec["kind"] == "poly" and not poly_admissible_x(spec, ref_in[0])):
+                msk = corrector_oracles(ctx, sub, ref_in[0], ref_in[1], out[0].detach(), out[1].detach())
+                if lines is not None and msk is not None:
+                    lines.append(corrector_line(sub, ref_in[0], ref_in[1]))
+                    metas.append((clean(sub) | {"_mask": [bool(m) for m in msk]}, ref_in[0], ref_in[1], out[0].detach(), out[1].detach()))
+            elif N and not (bool(torch.isfinite(out[0]).all()) and bool(torch.isfinite(out[1]).all())):
+                ctx.fail(cc, f"corrector-finite: {which}({spec['kind']}{spec['p']}) call {ci} returns non-finite values")
+                return
+        elif ref_in[0].numel() and lines is not None:
+            sub = {**cc, "dtype": dtn, "shape": call["shape"]}
+            lines.append(kernel_line(sub, ref_in[0]))
+            metas.append((sub, ref_in[0], out[0]))
+
+
+def poly_admissible_x(spec, R):
+    c1, c2, c3 = spec["p"]
+    for x in R.double().square().sum(-1).flatten().tolist():
+        t1 = [c1, 2 * c2 * x, 3 * c3 * x * x]
+        if sum(t1) <= 0 or sum(abs(t) for t in t1) > 4 * sum(t1):
+            return False
+        t2 = [2 * c2, 6 * c3 * x]
+        if sum(t2) != 0 and sum(abs(t) for t in t2) > 16 * abs(sum(t2)):
+            return False
+    return True
+
+
+def gen_history_case(rng, which, spec, ncalls=6):
+    calls = []
+    prev = None
+    for ci in range(ncalls):
+        layout = LAYOUTS[(ci + rng.randrange(len(LAYOUTS))) % len(LAYOUTS)] if ci else "contig"
+        if which == "kernel" and layout == "alias":
+            layout = "strided"
+        call = {"dtype": rng.choice(["float64", "float32"]), "nograd": rng.random() < 0.5, "layout": layout,
+                "data_seed": rng.randrange(1 << 30), "zero": rng.random() < 0.5}
+        if layout == "inplace" and prev is not None:
+            for k in ("dtype", "shape", "batch", "d", "p"):          # same tensors, new values
+                if k in prev:
+                    call[k] = prev[k]
+        elif which == "kernel":
+            call["shape"] = [rng.choice([0, 1, 2, 3, 5]) for _ in range(rng.randint(0, 3))]
+        else:
+            call["batch"] = [rng.choice([0, 1, 2, 3, 4]) if rng.random() < 0.12 else rng.choice([1, 2, 3, 4]) for _ in range(rng.randint(0, 3))]
+            call["d"], call["p"] = rng.randint(1, 6), rng.randint(1, 5)
+            if layout == "alias":
+                call["d"], call["p"] = 1, 1
+        calls.append(call)
+        prev = call
+    return {"stream": "history", "which": which, "spec": spec, "calls": calls, "data_seed": rng.randrange(1 << 30)}
+
+
+def run_history(ctx: Ctx, cases):
+    lines, metas = [], []
+    for case in cases:
+        n0 = len(lines)
+        guard(ctx, case, lambda: check_history(ctx, case, lines, metas))
+        ctx.note_case(("history", case["which"], case["spec"]["kind"], tuple(c["layout"] for c in case["calls"]), case["data_seed"] % 5), True)
+        ctx.count(f"history.{case['which']}.{case['spec']['kind']}")
+        for c in case["calls"]:
+            ctx.count(f"history.layout.{c['layout']}")
+            ctx.count(f"history.dtype.{c['dtype']}")
+        ctx.count("history.calls-to-model", len(lines) - n0)
+    reps = ctx.driver.run(lines)
+    for rep, meta in zip(reps, metas):
+        if len(meta) == 3:
+            compare_kernel(ctx, meta[0], meta[1], meta[2], rep)
+        else:
+            compare_corrector(ctx, meta[0], meta[1], meta[2], meta[3], meta[4], rep, stream="history")
+
+
+def guard(ctx: Ctx, case, fn):
+    """a misbehaving implementation (exception anywhere below the harness) is a failing input, never a harness crash"""
+    import traceback
+    try:
+        return fn()
+    except common.InfraError:
+        raise
+    except Exception as e:
+        tb = traceback.format_exc()
+        # the unchanged tree never raises here (seeds 0..9, both tiers), so whatever raises is the implementation's doing:
+        # an unexpected return type / shape / exception is a failing input of the property, not a harness verdict (exit 2)
+        where = "implementation" if ("/pypose/" in tb or "/torch/" in tb) else "handling the implementation's result"
+        ctx.fail(clean(case), f"implementation-crash: {type(e).__name__} in {where}: {str(e)[:160]} | {tb.strip().splitlines()[-3].strip()[:120]}")
+        return None
 
 
 # ----------------------------------------------------------------------------- case lists
@@ -1241,7 +1786,7 @@ def gen_cases(ctx: Ctx, rng, scale=1.0):
                     c2 = {**c, "data_seed": rng.randrange(1 << 30)}
                     # same kernel object, new residuals: keep the parameters only if they stay admissible
                     corr_cases.append(c2 if poly_admissible(c2) else {**c2, "spec": choose_poly(c2)})
-    for i in range(n(140, 1500)):
+    for i in range(n(90, 1200)):
         select_cases.append(gen_select_case(rng))
     return kernel_cases, neg_cases, corr_cases, select_cases
 
@@ -1259,19 +1804,137 @@ def poly_admissible(case):
     return True
 
 
+CORPUS_SPECS = {
+    "huber": [[1.0, 0, 0], [0.3, 0, 0], [2.5, 0, 0], [1e-3, 0, 0]],
+    "pseudohuber": [[1.0, 0, 0], [2.0, 0, 0], [0.05, 0, 0]],
+    "cauchy": [[1.0, 0, 0], [0.5, 0, 0], [7.0, 0, 0]],
+    "softlone": [[1.0, 0, 0], [0.6, 0, 0], [4.0, 0, 0]],
+    "arctan": [[1.0, 0, 0], [0.25, 0, 0], [3.0, 0, 0]],
+    "tolerant": [[1.0, -1.0, 0], [1.0, -0.02, 0], [5.0, -0.1, 0], [50.0, -1.0, 0], [0.3, -0.7, 0]],
+    "scale": [[1.0, 0, 0], [0.5, 0, 0], [1e-3, 0, 0]],
+}
+CORPUS_POLY = [("convex", [1.0, 0.5, 0.0]), ("convex", [0.3, 1e-9, 0.2]), ("linear", [2.5, 0.0, 0.0]), ("affine", [0.7, 0.0, 0.0]),
+               ("concave", [1.0, -2e-4, 0.0]), ("mixed", [1.0, -2e-4, 1e-5])]
+
+
+def corner_corpus():
+    """DETERMINISTIC corner corpus — independent of VERIF_SEED, run before anything random.
+    Every kernel x fixed parameters x both dtypes: threshold sweeps, even sweeps, extremes, every negative value at every
+    position class; every corrector x kernel: one mixed-regime batch (zero / tiny / at the threshold +- 8 ulp / ordinary /
+    large / overflow-free maximum) for d = 1, 3, 6; user kernels of every curvature class; one object history through all
+    memory layouts; every syntactic form of kernel= / corrector= on GN and LM."""
+    rng = random.Random(909)
+    K, Ng, Cr, H, S = [], [], [], [], []
+    for kind in BUILTIN:
+        for pi, pr in enumerate(CORPUS_SPECS[kind]):
+            spec = {"kind": kind, "p": [float(v) for v in pr]}
+            for dtn in ("float32", "float64"):
+                nb = 2 * (23 if dtn == "float32" else 52) + 1
+                if pi < 2:
+                    K.append({"stream": "kernel", "spec": spec, "dtype": dtn, "shape": [nb], "data_seed": 1, "sweep": True})
+                    if kind != "tolerant" or pr[0] / abs(pr[1]) == 50.0:
+                        K.append({"stream": "kernel", "spec": spec, "dtype": dtn, "shape": [len(lin_sweep(spec))], "data_seed": 2, "linsweep": True})
+                K.append({"stream": "kernel", "spec": spec, "dtype": dtn, "shape": [3, 4], "data_seed": 1000 + pi, "with_zero": True})
+                if pi == 0:
+                    for shape in ([], [1], [2, 3]):
+                        for mode, ds in (("neg", 11), ("neg", 12), ("neg", 13), ("negzero", 14), ("clean", 15)):
+                            Ng.append({"stream": "negative", "spec": spec, "dtype": dtn, "shape": shape, "mode": mode, "data_seed": ds + len(shape)})
+                if pi < 2:
+                    for which in ("fast", "triggs"):
+                        for d, pp_ in ((1, 1), (3, 2), (6, 4)):
+                            Cr.append({"stream": which, "which": which, "dtype": dtn, "batch": [2, 4], "nitems": 8, "d": d, "p": pp_,
+                                       "data_seed": 40 + d, "nograd": d == 3, "force_zero_row": False, "regimes": True, "spec": spec})
+                        if kind == "huber":
+                            Cr.append({"stream": which, "which": which, "dtype": dtn, "batch": [nb], "d": 2, "p": 1, "data_seed": 3,
+                                       "nograd": False, "force_zero_row": False, "sweep": True, "spec": spec})
+                        if kind == "tolerant" and pr[0] / abs(pr[1]) == 50.0:
+                            Cr.append({"stream": which, "which": which, "dtype": dtn, "batch": [len(lin_sweep(spec))], "d": 1, "p": 1,
+                                       "data_seed": 4, "nograd": True, "force_zero_row": False, "linsweep": True, "spec": spec})
+    for reg, pr in CORPUS_POLY:
+        spec = {"kind": "poly", "p": pr, **({"affine": True} if reg == "affine" else {})}
+        for dtn in ("float32", "float64"):
+            for which in ("fast", "triggs"):
+                Cr.append({"stream": which, "which": which, "dtype": dtn, "batch": [8], "nitems": 8, "d": 3, "p": 2, "data_seed": 50,
+                           "nograd": False, "force_zero_row": False, "regimes": True, "regime": reg, "spec": spec})
+    # object histories: fixed call sequences through every layout and both dtypes
+    for which, kinds in (("kernel", ["huber", "tolerant", "cauchy"]), ("fast", ["huber", "cauchy", "scale"]),
+                         ("triggs", ["huber", "arctan", "tolerant", "scale"])):
+        for kind in kinds:
+            spec = {"kind": kind, "p": [float(v) for v in CORPUS_SPECS[kind][1]]}
+            H.append(gen_history_case(random.Random(77 + len(H)), which, spec, ncalls=len(LAYOUTS) + 2))
+        H.append(gen_history_case(random.Random(177 + len(H)), which, {"kind": "poly", "p": [1.0, 0.5, 0.0]}, ncalls=len(LAYOUTS) + 2))
+    # the full layout x batch-rank matrix on one object per corrector / kernel
+    for which, kind in (("kernel", "huber"), ("kernel", "tolerant"), ("fast", "cauchy"), ("triggs", "cauchy"), ("triggs", "huber")):
+        calls = []
+        for bi, (batch, dd) in enumerate((b_, d_) for b_ in ([3, 2, 3], [4], [], [2, 0], [5, 2]) for d_ in ((1, 3) if which != "kernel" else (3,))):
+            for li, layout in enumerate(LAYOUTS):
+                if which == "kernel" and layout == "alias":
+                    continue
+                call = {"dtype": "float64" if (bi + li) % 2 else "float32", "nograd": bool((bi + li) % 3 == 0), "layout": layout,
+                        "data_seed": 9000 + 31 * bi + li, "zero": True}
+                if layout == "inplace" and calls:
+                    for k in ("dtype", "shape", "batch", "d", "p"):
+                        if k in calls[-1]:
+                            call[k] = calls[-1][k]
+                elif which == "kernel":
+                    call["shape"] = batch + [3]
+                else:
+                    call["batch"], call["d"], call["p"] = batch, (1 if layout == "alias" else dd), (1 if layout == "alias" else 1 + (li % 4))
+                calls.append(call)
+        H.append({"stream": "history", "which": which, "spec": {"kind": kind, "p": [float(v) for v in CORPUS_SPECS[kind][1]]},
+                  "calls": calls, "data_seed": 4242})
+    # every syntactic form of kernel= / corrector=
+    kspecs = [{"kind": "huber", "p": [0.4, 0.0, 0.0]}, {"kind": "cauchy", "p": [1.5, 0.0, 0.0]}, {"kind": "poly", "p": [1.0, 0.3, 0.0]}]
+    for nres in (1, 3):
+        kforms = [None, ["one", 1], ["many", [2]], ["many", list(range(nres))], ["many", [None] + list(range(1, nres))] if nres > 1 else ["many", [None]]]
+        if nres == 3:
+            kforms.append(["many", [0, 1]])
+        for kf in kforms:
+            cforms = [None, ["one", 3], ["many", [5]], ["many", [None] * nres], ["many", [(2 * j + j % 2) for j in range(nres)]]]
+            if kf is not None and kf[0] == "many" and len(kf[1]) == nres:
+                cforms.append(["many", [None if v is None else 2 * v + 1 for v in kf[1]]])
+            for cf in cforms:
+                for oi, opt in enumerate(("GN", "LM")):
+                    S.append({"stream": "select", "opt": opt, "dtype": "float64" if (len(S) % 3) else "float32", "p": 2,
+                              "shapes": [[2, 3], [1, 1], [3, 2]][:nres], "kspecs": kspecs, "karg": kf, "carg": cf, "tuple": bool(len(S) % 2),
+                              "damping": 1e-3, "data_seed": 600 + len(S)})
+    return K, Ng, Cr, H, S
+
+
+def gen_history_cases(ctx, rng, scale=1.0):
+    out = []
+    for which in ("kernel", "fast", "triggs"):
+        for i in range(max(1, int(ctx.pick(8, 60) * scale))):
+            kind = rng.choice(BUILTIN + (["poly"] if which != "kernel" else []))
+            spec = gen_spec(rng, kind) if kind != "poly" else {"kind": "poly", "p": [rng.choice([1.0, 0.4]), rng.choice([0.0, 0.2, 1.0]), rng.choice([0.0, 0.05])]}
+            out.append(gen_history_case(rng, which, spec, ncalls=rng.randint(4, 7)))
+    return out
+
+
 def run(ctx: Ctx):
     oracle_selftest()
     torch.set_num_threads(2)
+    # 1. deterministic corner corpus (seed-independent), first
+    K, Ng, Cr, H, S = corner_corpus()
+    ctx.count("corpus.cases", len(K) + len(Ng) + len(Cr) + len(H) + len(S))
+    run_kernel(ctx, K)
+    run_negative(ctx, Ng)
+    run_corrector(ctx, Cr)
+    run_history(ctx, H)
+    run_select(ctx, S)
+    # 2. seeded random population
     kernel_cases, neg_cases, corr_cases, select_cases = gen_cases(ctx, ctx.rng)
     run_kernel(ctx, kernel_cases)
     run_negative(ctx, neg_cases)
     run_corrector(ctx, corr_cases)
+    run_history(ctx, gen_history_cases(ctx, ctx.rng))
     run_select(ctx, select_cases)
 
 
 def search(ctx: Ctx):
     """after a broken proof / correspondence: the oracles alone on a larger, differently seeded population"""
     oracle_selftest()
+    scale_h = 1.0 if ctx.quick else 0.5
     for rnd in range(3):
         rng = random.Random(ctx.seed * 7919 + 104729 * (rnd + 1))
         kernel_cases, neg_cases, corr_cases, select_cases = gen_cases(ctx, rng, scale=1.0 if ctx.quick else 0.5)
@@ -1288,8 +1951,10 @@ def search(ctx: Ctx):
             c.pop("_E", None)
         for c in select_cases:
             n0 = len(ctx.disagreements)
-            check_select(ctx, c)
+            guard(ctx, c, lambda: check_select(ctx, c))
             del ctx.disagreements[n0:]
+        for c in gen_history_cases(ctx, rng, scale=scale_h):
+            guard(ctx, c, lambda: check_history(ctx, c))
         if ctx.failures:
             return
 
@@ -1319,6 +1984,15 @@ def replay(ctx: Ctx, case) -> bool:
             print("  implementation R':", res[2].flatten().tolist()[:8])
     elif st == "select":
         check_select(ctx, c)
+    elif st == "history":
+        c.pop("call", None)
+        lines, metas = [], []
+        check_history(ctx, c, lines, metas)
+        for rep, meta in zip(ctx.driver.run(lines), metas):
+            if len(meta) == 3:
+                compare_kernel(ctx, meta[0], meta[1], meta[2], rep)
+            else:
+                compare_corrector(ctx, meta[0], meta[1], meta[2], meta[3], meta[4], rep, stream="history")
     for f in ctx.failures[n0:]:
         print("  fails:", f["what"])
     for d in ctx.disagreements:
